@@ -51,6 +51,7 @@ type Entry struct {
 	SeqEnd   uint64            `json:"seq_end"`
 	Inflight int               `json:"inflight"` // requests in flight right after this one started (incl. itself)
 	Form     map[string]string `json:"form"`     // first value of every form parameter
+	AtNs     int64             `json:"at_ns"`    // wall clock at arrival
 }
 
 type Server struct {
@@ -160,6 +161,7 @@ func (s *Server) handle(w http.ResponseWriter, r *http.Request) {
 		}
 	}
 	e.SeqStart = s.seq() // taken under the lock: log order = sequence order
+	e.AtNs = time.Now().UnixNano()
 	s.log = append(s.log, e)
 	snapshot := *e
 	s.mu.Unlock()
